@@ -7,7 +7,9 @@ import shutil
 import core
 import impl
 
-ALPHA = list("abcdexyz") + ["é", "日", " ", "[", "]", "0", "1", "A", "F", "="]
+ALPHA = list("abcdexyz") + ["é", "日", " ", "[", "]", "0", "1", "A", "F", "=",
+                            # combining marks and conjoining jamo: a table maps code points, never normalised sequences
+                            "\u0301", "\u0300", "\u1100", "\u1161", "\uac00", "è"]
 
 
 def hx(s):
